@@ -90,6 +90,32 @@ def second_form(sig_fn):
   return f
 
 
+def added_twice(section, key, variant):
+  """Both definitions arrive through --add-item / additional= in ONE invocation (the file itself has neither)."""
+  def f(items, info, rng):
+    k1 = key(info, rng)
+    k2 = variant(k1, rng)
+    return items, k1, k2, [[section, k1, "as.constant 1.0" if section != "Potential-Form" else "1.0 + 0*r"],
+                           [section, k2, SECOND if section != "Potential-Form" else "777.0 + 0*r"]]
+  return f
+
+
+def added_over_file(section, variant, pick=lambda k, v: True):
+  """The file defines the item; a variant of its key is supplied through --add-item / additional=."""
+  def f(items, info, rng):
+    s = bm.sec(items, section)
+    if s is None:
+      return None
+    cands = [kv for kv in s[1] if pick(kv[0], kv[1])]
+    if not cands:
+      return None
+    kv = rng.choice(cands)
+    k2 = variant(kv[0], rng)
+    return items, kv[0], k2, [[section, k2, SECOND if section != "Potential-Form" else "777.0 + 0*r"]]
+  return f
+
+
+NEWPAIR = lambda info, rng: "%s-%s" % (rng.choice(["He", "Ne"]), rng.choice(["Kr", "Xe"]))
 SAME = lambda k, rng: k
 NOT_SELF = lambda k, v: k.split("-")[0] != k.split("-")[-1]
 
@@ -117,6 +143,16 @@ OPS = [
   ("custom_form_named_like_table_form", "*", lambda items, info, rng: (bm.sec(items, "Potential-Form")[1].append(["tbl(r)", "777.0 + 0*r"]), (items, "tbl", "tbl(r)"))[1]),
   ("adp_dipole_same_key_twice", "adp", dup_entry("EAM-ADP-Dipole", SAME)),
   ("adp_dipole_reversed", "adp", dup_entry("EAM-ADP-Dipole", rev, pick=NOT_SELF)),
+  ("added_twice_pair_same_key", "*", added_twice("Pair", NEWPAIR, SAME)),
+  ("added_twice_pair_whitespace_variant", "*", added_twice("Pair", NEWPAIR, ws)),
+  ("added_twice_pair_whitespace_variant_first", "*", added_twice("Pair", lambda info, rng: ws(NEWPAIR(info, rng), rng), lambda k, rng: k.replace(" ", ""))),
+  ("added_twice_pair_reversed", "*", added_twice("Pair", NEWPAIR, rev)),
+  ("added_twice_custom_form_whitespace_variant", "*", added_twice("Potential-Form", lambda info, rng: "zz(r,q)", lambda k, rng: rng.choice(["zz(r, q)", "zz (r,q)", "zz( r , q )"]))),
+  ("added_twice_fs_density_whitespace_variant", "fs", added_twice("EAM-Density", lambda info, rng: "%s->Zz" % info["species"][0], ws)),
+  ("added_over_file_pair_whitespace_variant", "*", added_over_file("Pair", ws)),
+  ("added_over_file_pair_reversed", "*", added_over_file("Pair", rev, pick=NOT_SELF)),
+  ("added_over_file_custom_form_whitespace_variant", "*", added_over_file("Potential-Form", lambda k, rng: k.replace(", ", ",") if ", " in k else k.replace(",", " , "))),
+  ("added_over_file_embed_same_key", "eam fs adp", added_over_file("EAM-Embed", SAME)),
 ]
 
 
@@ -137,10 +173,13 @@ def gen_cases(rng, tier):
   return cases
 
 
-def classify(text, route):
+def classify(text, route, adds=()):
   from atsim.potentials.config._common import ConfigurationException
   if route == "main":
-    res = routes.potable_main(["@IN", "@OUT"], text)
+    extra = []
+    for s_, k_, v_ in adds:
+      extra += ["--add-item", "%s:%s=%s" % (s_, k_, v_)]
+    res = routes.potable_main(["@IN", "@OUT"] + extra, text)
     if res["rc"] == 0:
       return {"outcome": "accepted", "tab": None}
     if res["rc"] == 2 and "configuration error - " in res["err"]:
@@ -148,7 +187,12 @@ def classify(text, route):
     et, fn = exc_sig(res["exc"]) if res.get("exc") is not None else ("exit%s" % res["rc"], "?")
     return {"outcome": "internal", "exc": et, "func": fn, "msg": res["err"][-200:]}
   try:
-    tab = routes.read_config(text)
+    if adds:
+      from atsim.potentials.config import ConfigParser, Configuration, ConfigParserOverrideTuple as T
+      import io
+      tab = Configuration().read_from_parser(ConfigParser(io.StringIO(text), additional=[T(s_, k_, v_) for s_, k_, v_ in adds]))
+    else:
+      tab = routes.read_config(text)
     routes.write_tab(tab)
     return {"outcome": "accepted", "tab": tab}
   except ConfigurationException as e:
@@ -198,11 +242,23 @@ def run_case(case, ctx):
   if res is None:
     ctx.count("operator_not_applicable")
     return
-  mutated, first, second = res
+  adds = ()
+  if len(res) == 4:
+    mutated, first, second, adds = res
+    # control: the first addition alone must be acceptable, or the operator proves nothing
+    if len(adds) == 2:
+      c0 = classify(bm.items_text(mutated), case["route"], adds[:1])
+      if c0["outcome"] != "accepted":
+        ctx.count("operator_not_applicable")
+        ctx.note("control refused for %s: %s" % (name, c0))
+        return
+    ctx.cls("second_definition_supplied_by_add_item")
+  else:
+    mutated, first, second = res
   text = bm.items_text(mutated)
   ctx.cls("op:" + name)
   ctx.cls("route:" + case["route"])
-  r = classify(text, case["route"])
+  r = classify(text, case["route"], adds)
   ctx.count("duplicates_judged")
   ctx.nontrivial(True)
   if r["outcome"] == "config_error":
